@@ -4,6 +4,7 @@ import VlsModel.Gen.FnEnforceVal
 import VlsModel.Gen.FnNodePay
 import VlsModel.Lemmas.FnGen
 import VlsModel.Lemmas.PaymentsFn
+import VlsModel.Lemmas.PaymentsFnSummary
 /-
 C06 — pieces of the hand-written payments model (`Model/Payments.lean`) proved equal to the function bodies that
 `translate/rs2lean.py` regenerates on every run from
@@ -209,5 +210,84 @@ theorem C06_fn_is_forwarded_payment_prunable (nch : Nat) (r : RP) (hw : WF nch r
   cases (Rs.omapGet invoices h).isNone <;> cases (Rs.omapGet issued h).isNone <;>
     cases (sumCh nch (abs r).inc == 0) <;> simp
 
+
+end VlsModel.Props.C06Fn
+
+/-! ### `EnforcementState::{summarize_payments, payments_summary, incoming_payments_summary}` (validator.rs, area `EnforcePay`)
+
+The generated functions return maps over the payment hash (association lists, order not represented); the ties are
+stated through `Rs.omapGet`.  `gl` turns a model HTLC list into the generated records, `ciOf (offered, received)` a
+commitment info, `esOf curH curC` an enforcement state whose two current commitments exist (a channel before its first
+commitments carries no HTLC; the model then uses `Info.empty`).  Proofs: `Lemmas/PaymentsFnSummary.lean`. -/
+namespace VlsModel.Props.C06Fn
+open VlsModel VlsModel.Payments VlsModel.Payments.Fn VlsModel.Payments.FnS
+open VlsModel.Gen.FnEnforcePay
+
+/-- `summarize_payments(htlcs)[h]` = `sumFor htlcs h` (absent for a hash that does not occur); it overflows exactly
+    when the model's `sumsOkL` fails (`hv`: the values are `u64`) -/
+theorem C06_fn_summarize_payments (l : List Htlc) (hv : ∀ y ∈ l, y.value ≤ U64.MAX) :
+    (sumsOkL l = true → ∃ m, EnforcementState.summarize_payments (gl l) = Except.ok m ∧
+        ∀ h, Rs.omapGet m h = if h ∈ hashes l then some (sumFor l h) else none) ∧
+    (sumsOkL l = false → EnforcementState.summarize_payments (gl l) = Except.error .overflow) :=
+  summarize_payments_main l hv
+
+/-- `payments_summary(new_holder_tx, new_counterparty_tx)`: per hash the MAX of the two effective views, keys = the
+    hashes of the effective views and of the current commitments (`outSpec`); overflow exactly when one summary does -/
+theorem C06_fn_payments_summary (curH curC : List Htlc × List Htlc) (newH newC : Option (List Htlc × List Htlc))
+    (hv1 : ∀ y ∈ (newH.getD curH).1, y.value ≤ U64.MAX) (hv2 : ∀ y ∈ (newC.getD curC).2, y.value ≤ U64.MAX) :
+    (sumsOkL (newH.getD curH).1 = true → sumsOkL (newC.getD curC).2 = true →
+      ∃ m, (esOf curH curC).payments_summary (newH.map ciOf) (newC.map ciOf) = Except.ok m ∧
+        ∀ h, Rs.omapGet m h = outSpec (newH.getD curH).1 (newC.getD curC).2 curH.1 curC.2 h) ∧
+    (sumsOkL (newH.getD curH).1 = false ∨ sumsOkL (newC.getD curC).2 = false →
+      (esOf curH curC).payments_summary (newH.map ciOf) (newC.map ciOf) = Except.error .overflow) :=
+  payments_summary_main curH curC newH newC hv1 hv2
+
+/-- `incoming_payments_summary(..)`: per hash the MIN of the two effective views, keys = the hashes present in BOTH
+    effective views plus the hashes of the current commitments (`inSpec`) -/
+theorem C06_fn_incoming_payments_summary (curH curC : List Htlc × List Htlc)
+    (newH newC : Option (List Htlc × List Htlc))
+    (hv1 : ∀ y ∈ (newH.getD curH).2, y.value ≤ U64.MAX) (hv2 : ∀ y ∈ (newC.getD curC).1, y.value ≤ U64.MAX) :
+    (sumsOkL (newH.getD curH).2 = true → sumsOkL (newC.getD curC).1 = true →
+      ∃ m, (esOf curH curC).incoming_payments_summary (newH.map ciOf) (newC.map ciOf) = Except.ok m ∧
+        ∀ h, Rs.omapGet m h = inSpec (newH.getD curH).2 (newC.getD curC).1 curH.2 curC.1 h) ∧
+    (sumsOkL (newH.getD curH).2 = false ∨ sumsOkL (newC.getD curC).1 = false →
+      (esOf curH curC).incoming_payments_summary (newH.map ciOf) (newC.map ciOf) = Except.error .overflow) :=
+  incoming_payments_summary_main curH curC newH newC hv1 hv2
+
+/-- `outSpec` / `inSpec` are the model: for effective views `hEff`, `cEff` and current views `hCur`, `cCur` (holder
+    commitment: offered = outgoing, received = incoming; counterparty commitment: the reverse) the two summaries carry
+    `outVal` / `inVal`, and a hash is a key of one of them iff it is in the model's `keys` -/
+theorem C06_fn_summaries_are_the_model (hEff cEff hCur cCur : Info) (h : Hash) :
+    outSpec hEff.out cEff.out hCur.out cCur.out h
+        = (if h ∈ hashes hEff.out ++ hashes cEff.out ++ hashes hCur.out ++ hashes cCur.out
+           then some (outVal hEff cEff h) else none) ∧
+    inSpec hEff.inc cEff.inc hCur.inc cCur.inc h
+        = (if h ∈ (hashes hEff.inc).filter (fun x => x ∈ hashes cEff.inc) ++ hashes hCur.inc ++ hashes cCur.inc
+           then some (inVal hEff cEff h) else none) ∧
+    (h ∈ keys hEff cEff hCur cCur ↔
+      (inSpec hEff.inc cEff.inc hCur.inc cCur.inc h).isSome ∨ (outSpec hEff.out cEff.out hCur.out cCur.out h).isSome) := by
+  unfold outSpec inSpec outVal inVal keys
+  refine ⟨?_, ?_, ?_⟩
+  · simp only [List.mem_append]
+    by_cases a : (h ∈ hashes hEff.out ∨ h ∈ hashes cEff.out ∨ h ∈ hashes hCur.out ∨ h ∈ hashes cCur.out)
+    · have : ((h ∈ hashes hEff.out ∨ h ∈ hashes cEff.out) ∨ h ∈ hashes hCur.out) ∨ h ∈ hashes cCur.out := by
+        rcases a with a | a | a | a <;> simp [a]
+      simp [a, this]
+    · have : ¬ (((h ∈ hashes hEff.out ∨ h ∈ hashes cEff.out) ∨ h ∈ hashes hCur.out) ∨ h ∈ hashes cCur.out) := by
+        intro b; apply a; rcases b with ((b | b) | b) | b <;> simp [b]
+      simp [a, this]
+  · simp only [List.mem_append, List.mem_filter, decide_eq_true_eq]
+    by_cases a : ((h ∈ hashes hEff.inc ∧ h ∈ hashes cEff.inc) ∨ h ∈ hashes hCur.inc ∨ h ∈ hashes cCur.inc)
+    · have : ((h ∈ hashes hEff.inc ∧ h ∈ hashes cEff.inc) ∨ h ∈ hashes hCur.inc) ∨ h ∈ hashes cCur.inc := by
+        rcases a with a | a | a <;> simp [a]
+      simp [a, this]
+    · have : ¬ (((h ∈ hashes hEff.inc ∧ h ∈ hashes cEff.inc) ∨ h ∈ hashes hCur.inc) ∨ h ∈ hashes cCur.inc) := by
+        intro b; apply a; rcases b with (b | b) | b <;> simp [b]
+      simp [a, this]
+  · simp only [List.mem_append, List.mem_filter, decide_eq_true_eq]
+    by_cases a1 : h ∈ hashes hEff.inc <;> by_cases a2 : h ∈ hashes cEff.inc <;> by_cases a3 : h ∈ hashes hCur.inc <;>
+      by_cases a4 : h ∈ hashes cCur.inc <;> by_cases b1 : h ∈ hashes hEff.out <;> by_cases b2 : h ∈ hashes cEff.out <;>
+      by_cases b3 : h ∈ hashes hCur.out <;> by_cases b4 : h ∈ hashes cCur.out <;>
+      simp [a1, a2, a3, a4, b1, b2, b3, b4]
 
 end VlsModel.Props.C06Fn
